@@ -848,7 +848,12 @@ func ToEntry(n Node) (e *Entry) {
 					// includes are accounted for in this module.
 					ms.dropEntryCache(a.Module)
 					sub := ToEntry(a.Module)
-					e.merge(a.Module.Prefix, nil, sub)
+					// What the submodule says about itself (belongs-to,
+					// yang-version, contact, its own extension statements, ...)
+					// is not said about each of its nodes.
+					body := *sub
+					body.Exts, body.Extra = nil, nil
+					e.merge(a.Module.Prefix, nil, &body)
 					// The identities of the submodule are the
 					// module's too.
 					e.Identities = append(e.Identities, sub.Identities...)
